@@ -244,6 +244,13 @@ class Kit:
                 else:
                     self.env.log("adopt-returned", id=step[1]["id"], value=result)
             return True
+        if op == "execute-foreign-trio":
+            # execute from a worker thread (trio.to_thread) of a trio run private to this thread
+            async def main():
+                await trio.to_thread.run_sync(lambda: self.submit(step[1], "execute"))
+
+            trio.run(main)
+            return True
         if op == "adopt-own-loop":
             # adopt from a thread that runs an event loop of its own
             async def inner():
